@@ -1,5 +1,6 @@
 import ZapVerif.Proofs.EntryWF
 import ZapVerif.Gen.JsonAdd
+import ZapVerif.Model.SubEnc
 /-! # C01 — the JSON encoder always emits one well-formed JSON object per entry, on one line
 
 Model: `Model/Esc.lean` (escaping), `Model/Enc.lean` (the streaming encoder over call trees), `Model/Entry.lean`
@@ -107,5 +108,73 @@ example : FieldOK (.arr [107] [AC.obj [OC.ns [34], OC.prim [10] (J.str (esc [255
   refine ⟨?_, ?_⟩
   · simp [WFa, WFo, WFj, esc_ok]
   · simp [NoCtlA, NoCtlO, NoCtlJ]
+
+/-! ------------------------------------------------------------------------------------------------------------------
+## built-in sub-encoders (BEGIN block `subenc`; model `Model/SubEnc.lean`)
+
+`jsonLine_wellformed` assumes `EntOK` / `PrimOK`: what each configured sub-encoder appended is a legal scalar.  For the
+built-in encoders the model now computes (levels ×4, `NanosDurationEncoder`, `MillisDurationEncoder`,
+`StringDurationEncoder`, `EpochNanosTimeEncoder`, `FullCallerEncoder`, `ShortCallerEncoder`, `FullNameEncoder` / nil) that
+hypothesis is DISCHARGED: they append one string or one integer. -/
+section SubEncoders
+open ZapVerif.SubEnc
+
+/-- every model-computed sub-encoder result satisfies the well-formedness hypothesis, whatever the raw values -/
+theorem subenc_wellformed (lk : LvlEnc) (dk : DurEnc) (ck : CallerEnc) (o : SubRes) (l n : Int) (defined : Bool)
+    (file name : Bytes) (line : Int) :
+    SubOK (lvlRes (some lk) o l) ∧ SubOK (durRes (some dk) o n) ∧ SubOK (timeRes true o n) ∧
+    SubOK (callerRes (some ck) o defined file line) ∧ SubOK (nameRes true o name) := by
+  refine ⟨trivial, ?_, trivial, trivial, trivial⟩
+  cases dk <;> trivial
+
+/-- duration and time fields encoded by the exact built-ins are well-formed leaves (no hypothesis left) -/
+theorem builtin_prims_ok (dk : DurEnc) (o : SubRes) (n : Int) :
+    PrimOK (.dur ⟨n, durRes (some dk) o n⟩) ∧ PrimOK (.time ⟨n, timeRes true o n⟩) := by
+  refine ⟨?_, trivial⟩
+  cases dk <;> trivial
+
+/-- an entry whose level, caller and name go through built-in exact encoders needs a hypothesis only for the time
+    encoder's result (float / layout kinds) -/
+theorem builtin_entry_ok (lk : LvlEnc) (ck : CallerEnc) (level : Int) (time : Option TimeV) (name : Bytes)
+    (defined : Bool) (file : Bytes) (line : Int) (function message stack : Bytes)
+    (ht : ∀ t, time = some t → SubOK t.res) :
+    EntOK (builtinEnt lk ck level time name defined file line function message stack) :=
+  ⟨trivial, ht, trivial, trivial⟩
+
+/-- C01 for the built-in encoders: with a level encoder among Lowercase/Capital/LowercaseColor/CapitalColor, a caller
+    encoder among Full/Short, FullNameEncoder (or nil) and EpochNanosTimeEncoder (or a zero time), the statement of
+    `jsonLine_wellformed` holds with NO assumption about sub-encoder results — for every level (known or not), every
+    file, line, name and instant -/
+theorem jsonLine_wellformed_builtin (c : Cfg) (lk : LvlEnc) (ck : CallerEnc) (level : Int) (nanos : Option Int)
+    (name : Bytes) (defined : Bool) (file : Bytes) (line : Int) (function message stack : Bytes)
+    (ctx : List (List Field)) (fields : List Field)
+    (hc : ∀ fs ∈ ctx, ∀ f ∈ fs, FieldOK f) (hf : ∀ f ∈ fields, FieldOK f) :
+    ∃ ms : List (Bytes × J),
+      jsonLine c (builtinEnt lk ck level (nanos.map fun n => ⟨n, timeRes true .noop n⟩) name defined file line
+        function message stack) ctx fields = render (J.obj ms) ++ c.ending ∧
+      WFj (J.obj ms) ∧
+      (∀ b ∈ render (J.obj ms), b ≥ 32) ∧
+      parseV (size (J.obj ms)) (render (J.obj ms)) = some (J.obj ms, []) := by
+  apply jsonLine_wellformed c _ ctx fields _ hc hf
+  apply builtin_entry_ok
+  intro t ht
+  cases nanos with
+  | none => simp at ht
+  | some n =>
+    simp only [Option.map_some, Option.some.injEq] at ht
+    rw [← ht]; trivial
+
+/-- non-vacuity: an unknown level under the capital colour encoder, a Windows-style path, a negative line -/
+example : ∃ ms, jsonLine ⟨[109], [108], [116], [110], [99], [], [], [], false⟩
+    (builtinEnt .capitalColor .short 42 (some ⟨-1, timeRes true .noop (-1)⟩) [115] true [67, 58, 92, 97, 92, 98] (-7) [] [104, 105] [])
+    [] [.prim [100] (.dur ⟨-1500000, durRes (some .millis) .noop (-1500000)⟩)] = render (J.obj ms) ++ [10] :=
+  let ⟨ms, h, _⟩ := jsonLine_wellformed_builtin ⟨[109], [108], [116], [110], [99], [], [], [], false⟩ .capitalColor .short 42
+    (some (-1)) [115] true [67, 58, 92, 97, 92, 98] (-7) [] [104, 105] [] []
+    [.prim [100] (.dur ⟨-1500000, durRes (some .millis) .noop (-1500000)⟩)] (by simp)
+    (by intro f hf; simp at hf; subst hf; exact (builtin_prims_ok .millis .noop (-1500000)).1)
+  ⟨ms, h⟩
+
+end SubEncoders
+/-! ## (END block `subenc`) -/
 
 end ZapVerif.C01
